@@ -125,9 +125,16 @@ class Parameters:
         if self.delay.delay_until is not None and self.delay.delay_until > now:
             return self.delay.delay_until
         if self.delay.defer_by is not None:
-            defer_by_times = (now - self.timestamp) // self.delay.defer_by + 1
+            # count the periods from the previous scheduled execution: the timestamp is reset
+            # on every reschedule and would shift the grid each time
+            base = self.delay.next_execution_time
+            if base is None:  # first execution: either at `delay_until` or a period after creation
+                base = self.timestamp
+                if self.delay.delay_until is not None and self.delay.delay_until > base:
+                    base = self.delay.delay_until
+            defer_by_times = max((now - base) // self.delay.defer_by + 1, 1)
             time_offset = self.delay.defer_by * defer_by_times
-            return self.timestamp + time_offset
+            return base + time_offset
         if self.delay.cron is not None:
             if not CRON_SUPPORT:
                 raise ImportError("Croniter is not installed.")  # pragma: no cover
